@@ -17,8 +17,9 @@ CONSTANTS TheSchema,     \* unbound schema descriptor
           MaxDepth
 
 VARIABLES cfgs,          \* [{"c1","c2"} -> configuration | NoneV (not built yet)]
-          ev
-vars == <<cfgs, ev>>
+          ev,            \* last event (observation; not part of the VIEW)
+          steps          \* number of operations performed (exact depth bound for TLC)
+vars == <<cfgs, ev, steps>>
 St == [cfgs |-> cfgs]
 
 S == Bind(TheSchema, IF TheSchema.senv = "auto" THEN <<>>
@@ -30,6 +31,7 @@ Init ==
     /\ d.ok
     /\ cfgs \in {[c1 |-> d.cfg, c2 |-> d.cfg], [c1 |-> d.cfg, c2 |-> NoneV]}
     /\ ev = [op |-> "Init"]
+    /\ steps = 0
 
 Outcome(r) == IF r.ok THEN "ok" ELSE r.err.cls
 Built(n) == IsCfg(cfgs[n])
@@ -86,16 +88,20 @@ Check(n) ==
        /\ ev' = [op |-> "Validate", n |-> n, out |-> IF r.ok THEN "ok" ELSE r.err.cls,
                  errpath |-> r.err.path, repl |-> {}]
 
-Next ==
-    \/ \E n \in Names, pk \in DOMAIN SetCands : \E v \in SetCands[pk] : SetAttr(n, pk, v) \/ SetItem(n, pk, v)
-    \/ \E n \in Names, kw \in Kwargs : Ctor(n, kw)
-    \/ \E n \in Names, t \in Trees : Load(n, t)
-    \/ \E n \in Names, pk \in DOMAIN SetCands : Reset(n, pk)
-    \/ \E n \in Names, pk \in DOMAIN ListOps : \E o \in ListOps[pk] : COp(n, pk, o)
-    \/ \E n \in Names, pk \in DOMAIN DictOps : \E o \in DictOps[pk] : COp(n, pk, o)
-    \/ \E n \in Names : Check(n)
+Tick == steps < MaxDepth /\ steps' = steps + 1
 
-Bound == TLCGet("level") <= MaxDepth
+\* (a disjunction of actions, so that TLC's simulator picks one operation per step)
+Next ==
+    \/ \E n \in Names, pk \in DOMAIN SetCands : \E v \in SetCands[pk] : Tick /\ SetAttr(n, pk, v)
+    \/ \E n \in Names, pk \in DOMAIN SetCands : \E v \in SetCands[pk] : Tick /\ SetItem(n, pk, v)
+    \/ \E n \in Names, kw \in Kwargs : Tick /\ Ctor(n, kw)
+    \/ \E n \in Names, t \in Trees : Tick /\ Load(n, t)
+    \/ \E n \in Names, pk \in DOMAIN SetCands : Tick /\ Reset(n, pk)
+    \/ \E n \in Names, pk \in DOMAIN ListOps : \E o \in ListOps[pk] : Tick /\ COp(n, pk, o)
+    \/ \E n \in Names, pk \in DOMAIN DictOps : \E o \in DictOps[pk] : Tick /\ COp(n, pk, o)
+    \/ \E n \in Names : Tick /\ Check(n)
+
+Bound == TRUE
 
 ---------------------------------------------------------------------------
 (* C01 *)
@@ -161,6 +167,6 @@ C13_Isolated == [][A_Isolated]_vars
 
 ---------------------------------------------------------------------------
 Export == PrintT(<<"EDGE", ToJson([from |-> St, ev |-> ev', to |-> St'])>>)
-PInit  == (TLCGet("level") = 1) => PrintT(<<"INIT", ToJson(St)>>)
-View == cfgs
+PInit  == (steps = 0) => PrintT(<<"INIT", ToJson(St)>>)
+View == <<cfgs, steps>>
 =============================================================================
